@@ -62,6 +62,85 @@ def _leaf_sweeps():
     return out
 
 
+# Alternatives of different VALUE KINDS with pairwise different leading characters where possible (ast, kind).
+MIXED_LIB = [
+    (("dict", [None], ["."]), "scalar"),
+    (("dict", [-1, "wall"], ["_", "A"]), "scalar"),
+    (("spaces", 0, "g"), "scalar"),
+    (("hexint",), "scalar"),
+    (("dict", [((0,), (1,)), ((1,), (0,))], ["X", "Y"]), "tuple-table"),
+    (("dict", [[0, 0], [0, 1]], ["P", "Q"]), "list-table"),
+    (("tupl", [("hexint",), ("hexint",)]), "tupl"),
+    (("tupl", [("fixstr", "/"), ("hexint",), ("seq", ("hexint",), 1)]), "tupl"),
+    (("tupl", [("dict", ["a"], ["T"]), ("seq", ("hexint",), 2)]), "tupl"),
+    (("seq", ("hexint",), 2), "seq"),
+    (("seq", ("dict", [1, 2], ["K", "L"]), 2), "seq"),
+    (("seq", ("tupl", [("fixstr", ":"), ("hexint",)]), 2), "seq"),
+    (("grid", ("hexint",), (1, 2)), "grid"),
+    (("grid", ("dict", [7, 8], ["W", "V"]), (2, 1)), "grid"),
+]
+
+# (term, h, w, value, expected): the smallest inputs of earlier findings, run first
+CORPUS = [
+    (("seq", ("oneof", [("dict", [None], ["."]), ("tupl", [("hexint",), ("hexint",)])]), 4), 1, 1,
+     [([1], [2]), None, None, ([30], [300])], [([1], [2]), None, None, ([30], [300])]),
+    (("oneof", [("dict", [-1], ["x"]), ("seq", ("hexint",), 2)]), 1, 1, [1, 2], [1, 2]),
+    (("oneof", [("dict", [-1], ["x"]), ("seq", ("hexint",), 2)]), 1, 1, -1, -1),
+    (("seq", ("dict", [[0, 0], [0, 1]], ["a", "b"]), 3), 1, 1, [[0, 1], [0, 0], [0, 1]], [[0, 1], [0, 0], [0, 1]]),
+    (("grid", ("oneof", [("dict", [0], ["."]), ("grid", ("hexint",), (1, 2))]), None), 2, 1, [[0], [[[5, 255]]]], [[0], [[[5, 255]]]]),
+]
+
+
+def _dedupe(vs):
+    out = []
+    for v in vs:
+        if not any(_canon_typed(v) == _canon_typed(u) for u in out):
+            out.append(v)
+    return out
+
+
+def _pool(ast, h, w):
+    """A few single items (values) the term accepts, by construction from what each combinator is documented to take."""
+    k = ast[0]
+    if k == "dict":
+        return list(ast[1])
+    if k == "spaces":
+        return [ast[1]]
+    if k == "hexint":
+        return [1, 16, 300]
+    if k == "decint":
+        return [7, 12345]
+    if k == "oneof":
+        return _dedupe([v for a in ast[1] for v in _pool(a, h, w)])
+    if k == "tupl":
+        runs = [[[]] if e[0] == "fixstr" else [[x] for x in _pool(e, h, w)] for e in ast[1]]
+        return _dedupe([tuple(r[0] for r in runs), tuple(r[-1] for r in runs), tuple(r[len(r) // 2] for r in runs)])
+    if k in ("seq", "grid"):
+        items = _pool(ast[1], h, w)
+        gh, gw = (1, ast[2]) if k == "seq" else (ast[2] if ast[2] is not None else (h, w))
+        flats = _dedupe([[items[(i + s) % len(items)] for i in range(gh * gw)] for s in range(min(3, len(items)))])
+        if k == "seq":
+            return flats
+        return [[f[y * gw:(y + 1) * gw] for y in range(gh)] for f in flats]
+    raise ValueError(ast)
+
+
+def _mutable_leaf(ast):
+    """does a table of the term itself (Dict `before`, the Spaces value) hold a mutable value?"""
+    def mutable(v):
+        return isinstance(v, (list, dict, set)) or (isinstance(v, tuple) and any(mutable(x) for x in v))
+    k = ast[0]
+    if k == "dict":
+        return any(mutable(v) for v in ast[1])
+    if k in ("spaces", "intspaces"):
+        return mutable(ast[1])
+    if k in ("oneof", "tupl"):
+        return any(_mutable_leaf(a) for a in ast[1])
+    if k in ("seq", "grid", "vrooms"):
+        return _mutable_leaf(ast[1])
+    return False
+
+
 def _ser_case(obj, env, data, idx, secs):
     return sc.run_guarded(lambda: obj.serialize(env, data, idx), secs)
 
@@ -78,7 +157,11 @@ def correspond(ctx):
         "1xN / Nx1 / 1x1 / zero boards, permuted rooms and cells; ~15% deliberately malformed) -> serialize at every idx and "
         "serialize_problem on the real classes vs the Lean model; every produced text is then decoded in a context "
         "pre+text+rest at every start index, real vs model, outcome kinds (value / None / exception class / non-termination) "
-        "included; plus systematic sweeps of every leaf. non-trivial+distinct = (term, data, idx) with a produced text, or "
+        "included; plus systematic sweeps of every leaf; plus OneOf terms over alternatives of DIFFERENT VALUE KINDS (scalar tables, "
+        "tables of tuples / of lists, Spaces, HexInt next to Tupl / Seq / Grid alternatives with different leading characters; every "
+        "ordered pair of a fixed library, and random ones bare or under Seq / Grid / Tupl / ValuedRooms) with values of every "
+        "alternative; Dict constructors with tuple- and list-valued tables; after every successful decode at index 0 the result "
+        "is edited in place and the same text decoded again (separate calls, separate results). non-trivial+distinct = (term, data, idx) with a produced text, or "
         "(term, text, idx) with decoded items")
     ctx.extra["assumptions"] = [sc.PATCH_NOTES]
     rng = ctx.rng
@@ -87,17 +170,45 @@ def correspond(ctx):
     for ast, data in _leaf_sweeps():
         obj = sc.build(ast)
         cases.append((ast, obj, sc.comb_sx(obj), 1, 1, data))
-    for _ in range(ctx.n(10000, 80000)):
-        ast = sc.gen_any_term(rng, rng.choice([1, 2, 2, 3]))
-        try:
-            obj = sc.build(ast)
-        except ValueError:
-            ctx.count("constructor-rejected")
+    def built(ast):
+        """the live object, or None (a constructor that raises anything but its documented ValueError is a difference from the
+        model, whose constructors are total on these terms)"""
+        o = sc.run_guarded(lambda: sc.build(ast), 5)
+        if o[0] == "ret":
+            return o[1]
+        if o != ("err", "ValueError"):
+            ctx.disagree("constructor-model-vs-code", term=sc.term_py(ast), real=str(o), model="constructs")
+        ctx.count("constructor-rejected")
+        return None
+
+    for ast, h, w, v, _exp in CORPUS:
+        obj = built(ast)
+        if obj is not None:
+            cases.append((ast, obj, sc.comb_sx(obj), h, w, [v]))
+    # deterministic: every ordered pair of alternatives of different value kinds, every value of both handed to the pair
+    for a, ka in MIXED_LIB:
+        for b, kb in MIXED_LIB:
+            if a is not b and not (ka == "scalar" and kb == "scalar"):
+                ast = ("oneof", [a, b])
+                obj = built(ast)
+                if obj is not None:
+                    cases.append((ast, obj, sc.comb_sx(obj), 2, 2, _pool(a, 2, 2)[:2] + _pool(b, 2, 2)[:2]))
+    n_random = ctx.n(10000, 80000)
+    n_mixed = ctx.n(1500, 12000)
+    for i in range(n_random + n_mixed):
+        if i < n_random:
+            ast = sc.gen_any_term(rng, rng.choice([1, 2, 2, 3]), mixed="any")
+        else:
+            # OneOf over alternatives of different value kinds (scalar / tuple / list / rows), values from every alternative
+            ast = sc.gen_mixed_term(rng, rng.choice([0, 1, 1, 2]))
+            ctx.count("mixed-kind-oneof-term")
+        obj = built(ast)
+        if obj is None:
             continue
         h, w = _dims(rng)
         data = []
         for _ in range(rng.choice([1, 1, 2, 3])):
-            data += sc.sample_run(rng, ast, h, w, bad=rng.choice([0.0, 0.0, 0.15, 0.4]))
+            data += sc.sample_run(rng, ast, h, w, bad=rng.choice([0.0, 0.0, 0.15, 0.4] if i < n_random else [0.0, 0.0, 0.0, 0.15]))
         cases.append((ast, obj, sc.comb_sx(obj), h, w, data))
     # --- serialize
     ops, lines = [], []
@@ -162,6 +273,19 @@ def correspond(ctx):
                  ("de", sx, s, idx, h, w) if ro.startswith("(ok") else None)
         if ro != mo:
             ctx.disagree("deserialize-model-vs-code", term=sx, text=s, idx=idx, h=h, w=w, real=ro, model=mo)
+        if ro.startswith("(ok") and idx == 0 and not _mutable_leaf(ast):
+            # separate calls, separate results: the caller edits what the first decode returned, the second decode of the
+            # same text is unaffected (terms whose own tables hold mutable values hand those out by design: not probed)
+            ctx.count("alias-probe")
+            bad = sc.alias_probe(lambda: obj.deserialize(_env(h, w), s, 0), 20)
+            if bad:
+                sig = "deserialize:result-shared-between-calls"
+                what = "%s.deserialize(env(%d,%d), %r, 0): %s" % (sc.term_py(ast), h, w, s, bad[:900])
+                ctx.disagree("property:" + sig, what=what)
+                if not hasattr(ctx, "concrete"):
+                    ctx.concrete = []
+                if not ctx.concrete:
+                    ctx.concrete.append(Finding(sig, what, {"kind": "alias", "term": sc.term_py(ast), "text": s, "h": h, "w": w, "sig": sig}))
     # --- the constructors' own parameter checks, at and beyond their limits (a constructor that accepts more builds
     # combinators that cannot round-trip; one that accepts less rejects codecs the theorems cover)
     import cspuz.problem_serializer as ps
@@ -176,6 +300,8 @@ def correspond(ctx):
         for na in range(0, 4):
             ctor_cases.append(("(dict (%s) (%s))" % (" ".join("(i %d)" % i for i in range(nb)), " ".join("(%d)" % (97 + i) for i in range(na))),
                                lambda nb=nb, na=na: ps.Dict(list(range(nb)), [chr(97 + i) for i in range(na)])))
+    for before in ([[0, 0], [0, 1]], [(0, 0), (0, 1)], [[], ()], [([1], [2]), None], [[[1]], [[1]]], [None, [None]]):
+        ctor_cases.append(("(dict %s ((97) (98)))" % sc.vals_sx(before), lambda before=before: ps.Dict([x for x in before], ["a", "b"])))
     outs = drv.run(["(ctor %s)" % t for t, _ in ctor_cases])
     for (t, mk), mo in zip(ctor_cases, outs):
         o = sc.run_guarded(mk, 5)
@@ -215,7 +341,7 @@ def _canon_typed(v):
     return (type(v).__name__, v)
 
 
-def _check_value(found, sig, obj, term, v, expect, h, w):
+def _check_value(found, sig, obj, term, v, expect, h, w, mutable_tables=False):
     if sig in found:
         return
     r = _roundtrip(obj, v, h, w)
@@ -228,6 +354,15 @@ def _check_value(found, sig, obj, term, v, expect, h, w):
         found[sig] = Finding(sig, "%s on a %dx%d board: value %r encodes to %r which decodes to %r (expected %r)"
                              % (term, h, w, v, r[1], got[0] if len(got) == 1 else got, expect),
                              {"kind": "roundtrip", "term": term, "value": repr(v), "expect": repr(expect), "h": h, "w": w, "sig": sig})
+        return
+    # ... on every decode: the caller edits what the first decode returned, the second decode of the same text is unaffected
+    asig = "deserialize:result-shared-between-calls"
+    if asig not in found and not mutable_tables:
+        text = r[1]
+        bad = sc.alias_probe(lambda: obj.deserialize(_env(h, w), text, 0), 10)
+        if bad:
+            found[asig] = Finding(asig, "%s.deserialize(env(%d,%d), %r, 0): %s" % (term, h, w, text, bad[:900]),
+                                  {"kind": "alias", "term": term, "text": text, "h": h, "w": w, "sig": asig})
 
 
 def _terms():
@@ -247,10 +382,99 @@ def _rooms_sig(h, w):
     return "rooms:roundtrip"
 
 
+def _built(found, ast):
+    """the live object of a term every constructor argument of which is valid; a constructor that raises is a finding"""
+    o = sc.run_guarded(lambda: sc.build(ast), 5)
+    if o[0] == "ret":
+        return o[1]
+    sig = "constructor:raises-on-valid-arguments"
+    if sig not in found:
+        found[sig] = Finding(sig, "%s cannot be constructed: %s" % (sc.term_py(ast), o[1] if o[0] == "err" else "does not return"),
+                             {"kind": "ctor", "term": sc.term_py(ast), "sig": sig})
+    return None
+
+
+def _check_term(found, sig, ast, v, expect, h, w):
+    obj = _built(found, ast)
+    if obj is not None:
+        _check_value(found, sig, obj, sc.term_py(ast), v, expect, h, w, _mutable_leaf(ast))
+
+
+def _mixed_ok(alts):
+    """alternatives (ast, kind) in this order form a OneOf inside the property: leading characters pairwise different, and no
+    alternative is handed a foreign value its documented argument types exclude (Grid indexes rows: nothing list-valued after
+    a Grid, one Grid at most; a table of tuples in front of the Tupl alternatives)"""
+    used = set()
+    for i, (a, k) in enumerate(alts):
+        l = sc.lead_chars(a)
+        if l is None or (l & used):
+            return False
+        used |= l
+        later = [k2 for _, k2 in alts[i + 1:]]
+        if k == "grid" and any(k2 in ("grid", "seq", "list-table") for k2 in later):
+            return False
+        if k == "tupl" and "tuple-table" in later:
+            return False
+    return True
+
+
+def _mixed_values(alts, n, rng=None, limit=None):
+    """lists of n items drawn from the pools of ALL alternatives (every combination, or `limit` random ones)"""
+    pool = _dedupe([v for a, _ in alts for v in _pool(a, 2, 2)[:2]])
+    if rng is None:
+        return [list(t) for t in itertools.product(pool, repeat=n)]
+    return [[rng.choice(pool) for _ in range(n)] for _ in range(limit)]
+
+
+def _search_mixed(found, rng):
+    import cspuz.problem_serializer as ps
+    sig = "oneof:mixed-value-kinds"
+    combos = [list(c) for c in itertools.permutations(MIXED_LIB, 2)]
+    triples = [list(c) for c in itertools.permutations(MIXED_LIB, 3)]
+    rng.shuffle(triples)
+    combos += triples[:400]
+    quads = [rng.sample(MIXED_LIB, 4) for _ in range(300)]
+    combos += quads
+    for alts in combos:
+        if sig in found:
+            return
+        if all(k == "scalar" for _, k in alts) or not _mixed_ok(alts):
+            continue
+        one = ("oneof", [a for a, _ in alts])
+        small = len(alts) == 2
+        # the bare OneOf, one value of each alternative
+        for v in _mixed_values(alts, 1):
+            _check_term(found, sig, one, v[0], v[0], 2, 2)
+        # as the base of Seq: every sequence of values of all alternatives (pairs), random ones (larger OneOfs)
+        for n in (1, 2, 3) if small else (2, 4):
+            ast = ("seq", one, n)
+            for v in (_mixed_values(alts, n) if small and n <= 2 else _mixed_values(alts, n, rng, 12)):
+                _check_term(found, sig, ast, v, v, 2, 2)
+        # as the base of Grid (board dimensions), as Tupl elements, as the values of ValuedRooms
+        for (h, w) in ((1, 2), (2, 2)) if small else ((2, 1),):
+            ast = ("grid", one, None)
+            for v in _mixed_values(alts, h * w, rng, 6):
+                rows = [v[y * w:(y + 1) * w] for y in range(h)]
+                _check_term(found, sig, ast, rows, rows, h, w)
+        ast = ("tupl", [one, ("fixstr", "/"), ("seq", one, 2)])
+        for v in _mixed_values(alts, 3, rng, 6):
+            val = ([v[0]], [], [[v[1], v[2]]])
+            _check_term(found, sig, ast, val, val, 2, 2)
+        ast = ("vrooms", one, False, False)
+        canon = [[(0, 0), (1, 0)], [(0, 1)], [(1, 1)]]
+        for v in _mixed_values(alts, 3, rng, 4):
+            _check_term(found, sig, ast, (canon, v), (canon, v), 2, 2)
+
+
 def search(ctx, why):
     import cspuz.problem_serializer as ps
     rng = ctx.rng
     found = {}
+    # 0. the smallest inputs of earlier findings
+    for ast, h, w, v, exp in CORPUS:
+        _check_term(found, "oneof:mixed-value-kinds", ast, v, exp, h, w)
+    # 0a. OneOf over alternatives of DIFFERENT VALUE KINDS (scalar / tuple / list / rows) that start with different characters
+    _search_mixed(found, rng)
     # 1. Rooms on every board up to 3x3: every partition into connected rooms, canonical and permuted orders
     for h in range(1, 4):
         for w in range(1, 4):
@@ -349,6 +573,13 @@ def replay(ctx, data):
         if o[0] == "ret":
             return Finding(data["sig"], "still accepted, encoded as %r" % (o[1],), data)
         return None
+    if data.get("kind") == "ctor":
+        o = sc.run_guarded(lambda: eval(data["term"], ns), 5)
+        return None if o[0] == "ret" else Finding(data["sig"], "%s cannot be constructed: %s" % (data["term"], o[1] if o[0] == "err" else "does not return"), data)
+    if data.get("kind") == "alias":
+        obj = eval(data["term"], ns)  # the term text was produced by this module
+        bad = sc.alias_probe(lambda: obj.deserialize(_env(data["h"], data["w"]), data["text"], 0), 10)
+        return Finding(data["sig"], "%s.deserialize(env(%d,%d), %r, 0): %s" % (data["term"], data["h"], data["w"], data["text"], bad[:900]), data) if bad else None
     if data.get("kind") == "roundtrip":
         obj = eval(data["term"], ns)  # the term text was produced by this module
         v = pyast.literal_eval(data["value"])
